@@ -5,6 +5,9 @@ yielded nor of the iteration order inside a component. -/
 import XsdataModel.Codegen.Packages
 import XsdataModel.Proofs.ResolverPerm
 
+set_option linter.unusedSimpArgs false
+set_option linter.unusedVariables false
+
 namespace Xs.Codegen
 open Py List
 
